@@ -42,7 +42,7 @@ CHECKS = {
             H("c04.VH_openvpn_udp", {"L": 88}, {"L": 96}, opts=C04_OPTS, covers=["match returned"]),
             H("c04.VH_openvpn_crypt2_tcp", {"L": 1082}, {"L": 1090}, opts=C04_OPTS, covers=["match returned"]),
             H("c04.VH_openvpn_crypt2_udp", {"L": 1080}, {"L": 1090}, opts=C04_OPTS, covers=["match returned"]),
-            H("c04.VH_tls", {"L": 54}, {"L": 57}, opts=C04_OPTS, covers=["match returned"], weight=4),
+            H("c04.VH_tls", {"L": 54}, {"L": 55}, opts=C04_OPTS, covers=["match returned"], weight=4),
             H("c04.VH_quic_tcp", {"L": 4}, {"L": 8}, opts=C04_OPTS, covers=["match returned"]),
             H("c04.VH_dns_tcp", {"L": 16}, {"L": 20}, opts=C04_OPTS, covers=["match returned"], validate=False),
             H("c04.VH_dns_udp", {"L": 16}, {"L": 20}, opts=C04_OPTS, covers=["match returned"], validate=False),
@@ -64,7 +64,7 @@ CHECKS = {
         ],
         "outside": ["inputs longer than the per-matcher bound L", "net/http, http2/hpack, quic-go, miekg/dns, mastercactapus/proxyprotocol internals", "QUIC matcher beyond its first-byte checks"],
         "bounds": {"quick": "L per matcher: postgres 16, ssh 8, xmpp 56, socks4 12, socks5 10, proxy_protocol 16, regexp 8, wireguard 150, winbox 42 and 255..260, rdp 19, openvpn 90 / 1082 (crypt2), tls 54, dns 16, isHttp 24",
-                   "thorough": "postgres 20, socks5 40, winbox 300, rdp 22, tls 57, isHttp 64, openvpn 96/1090"},
+                   "thorough": "postgres 20, socks5 40, winbox 300, rdp 22, tls 55, isHttp 64, openvpn 96/1090"},
     },
 }
 
@@ -356,7 +356,7 @@ CHECKS["C13"] = {
 }
 CHECKS["C08"] = {
     "harnesses": [
-        H("c13.VH_listener", {"CONNS": 2, "L": 3}, {"params": {"CONNS": 3, "L": 3}, "pool_adversarial": True}, variant="pool", covers=["delivered and read"], weight=3, **_envonly),
+        H("c13.VH_listener", {"CONNS": 2, "L": 3}, {"params": {"CONNS": 3, "L": 2}, "pool_adversarial": True}, variant="pool", covers=["delivered and read"], weight=3, **_envonly),
         H("c01.VH_step_tee", {"MAXB": 3000}, {"MAXB": 5000}, covers=["recorder ran", "bytes buffered at handler time"], weight=8, validate=False),
         H("c01.VH_prefetch_step", {}, {}, covers=["read through a pooled chunk"]),
         H("c13.VH_listener_wrap", {"CONNS": 2, "L": 3}, {"CONNS": 2, "L": 4}, covers=["handler consumed the buffered bytes and wrapped", "delivered and read", "delivered after a handler consumed bytes"], weight=4, **_envonly),
@@ -375,7 +375,7 @@ CHECKS["C08"] = {
         for m, lq, lt in [("regexp", 6, 7), ("socks5", 4, 6), ("ssh", 4, 6)]
     ] + [
         # the concurrency harnesses of other properties, in race mode
-        H("c13.VH_listener", {"params": {"CONNS": 2, "L": 2}, "race": True}, {"params": {"CONNS": 3, "L": 2}, "race": True, "preempt": 1}, variant="race", covers=["delivered and read"], weight=3, **_envonly),
+        H("c13.VH_listener", {"params": {"CONNS": 2, "L": 2}, "race": True}, {"params": {"CONNS": 3, "L": 2}, "race": True}, variant="race", covers=["delivered and read"], weight=3, **_envonly),
         H("c13.VH_close_pending", {"params": {"CONNS": 2}, "race": True}, {"params": {"CONNS": 3}, "race": True, "preempt": 1}, variant="race", covers=["closed with pending connections"], weight=2, **_envonly),
         H("c09.VH_udp", {"params": {"KIND": 2, "DGRAMS": 2, "CLIENTS": 2}, "race": True}, {"params": {"KIND": 2, "DGRAMS": 3, "CLIENTS": 2}, "race": True, "preempt": 1}, variant="race", covers=["served"], weight=3, **_envonly),
         H("c11.VH_relay", {"params": {"PEERS": 2, "BL": 2, "DL": 2, "UPL": 2}, "race": True}, {"params": {"PEERS": 2, "BL": 2, "DL": 3, "UPL": 2}, "race": True}, variant="race", covers=["relayed"], weight=4, **_envonly),
